@@ -70,10 +70,13 @@ bool Action::start() {
     return false;
   }
 
-  auto last_state = state_;
   auto last_reset_count = reset_count_;
 
   LogDbg("start action %d:%s[%s]", id_, type_.c_str(), label_.c_str());
+
+  //! 先进入运行状态，再调 onStart()：onStart() 期间的回调（函数动作的函数体、子动作的回调）
+  //! 若对本动作 stop()/pause()/start()，才不会因为状态还是 kIdle 而被忽略或重入
+  state_ = State::kRunning;
 
   is_base_func_invoked_ = false;
 
@@ -82,12 +85,10 @@ bool Action::start() {
   if (!is_base_func_invoked_)
     LogWarn("%d:%s[%s] didn't invoke base func", id_, type_.c_str(), label_.c_str());
 
-  //! onStart() 中可能已经 finish()，其 final 回调又 reset() 了本动作：此时状态又回到 kIdle，不能再置为运行
-  if (last_state == state_ && last_reset_count == reset_count_) {
+  //! onStart() 中可能已经 finish()/block()/stop()，也可能被 reset() 后重新 start()：只有仍是本次启动的运行状态才开启超时定时器
+  if (state_ == State::kRunning && last_reset_count == reset_count_) {
     if (timer_ev_ != nullptr)
       timer_ev_->enable();
-
-    state_ = State::kRunning;
   }
   return true;
 }
